@@ -146,12 +146,21 @@ def project(s1, s2, p, delta=0.0):
 
 
 def box_around_point(p, dist):
+    """Box (lat_min, lon_min, lat_max, lon_max) that encloses all points within dist meters of p."""
     lat, lon = p
     latr, lonr = radians(lat), radians(lon)
-    # diag_dist = sqrt(2 * dist ** 2)
-    diag_dist = dist
-    lat_t, lon_r = destination_radians(latr, lonr, radians(45), diag_dist)
-    lat_b, lon_l = destination_radians(latr, lonr, radians(225), diag_dist)
+    # Angular radius of the circle around p
+    d = dist / earth_radius
+    lat_t, lat_b = latr + d, latr - d
+    if lat_t >= math.pi / 2 or lat_b <= -math.pi / 2:
+        # The circle reaches a pole (or dist is infinite): all longitudes can be in range
+        lat_t, lat_b = min(lat_t, math.pi / 2), max(lat_b, -math.pi / 2)
+        lon_l, lon_r = -math.pi, math.pi
+    else:
+        # The meridians that touch the circle (these are further away than the
+        # destinations when travelling east or west)
+        dlon = asin(min(1.0, sin(d) / cos(latr)))
+        lon_l, lon_r = lonr - dlon, lonr + dlon
     lat_t, lon_r = degrees(lat_t), degrees(lon_r)
     lat_b, lon_l = degrees(lat_b), degrees(lon_l)
     return lat_b, lon_l, lat_t, lon_r
